@@ -181,9 +181,15 @@ def run_case(case, ctx, pool_kind):
         if pool_kind != "sim":
             delays = {i: d / 1000.0 for i, d in enumerate(case["delays"])}
         reader = Reader(log, case["fail_read"], delays)
+        via_default = bool(case.get("workers_via_default"))
         fileset = FileSet(pop.path, name="c10", placeholder={"id": r"\d+"},
                           handler=FileHandler(reader=reader),
-                          max_threads=3, max_processes=2)
+                          max_threads=workers if via_default else 3,
+                          max_processes=(workers if pool_kind == "process"
+                                         else workers + 2)
+                          if via_default else 2)
+        if via_default:
+            ctx.label("workers-from-fileset-default")
         # selection
         kwargs = {}
         bundles = None
@@ -202,9 +208,13 @@ def run_case(case, ctx, pool_kind):
                     ctx.label("files-subset")
                     if not pick:
                         ctx.label("files-empty")
-                kwargs["files"] = list(found) if case.get(
-                    "files_as", "list") == "list" else tuple(found)
-                ctx.label("files-arg")
+                how = case.get("files_as", "list")
+                kwargs["files"] = {
+                    "list": list, "tuple": tuple, "iter": iter,
+                    "generator": lambda fs_: (f for f in fs_),
+                    "paths": lambda fs_: [f.path for f in fs_],
+                }[how](found)
+                ctx.label("files-arg", "files-as-" + how)
             else:
                 k = case["bundle"]
                 bundles = [ids[i:i + k] for i in range(0, n, k)]
@@ -241,6 +251,8 @@ def run_case(case, ctx, pool_kind):
 
         sched = simpool.Schedule(case["perm"])
         saved = FS.ThreadPoolExecutor
+        if via_default:
+            call.pop("max_workers", None)
         if pool_kind == "sim":
             FS.ThreadPoolExecutor = simpool.make_pool_class(sched)
             sched.start_watchdog()
@@ -656,11 +668,15 @@ def sampled_cases(draw, real=False):
         fail_read=fail_read, error_to_warning=draw(st.booleans()),
         fail_func=draw(st.one_of(st.none(), st.none(),
                                  st.integers(0, n - 1))))
+    if select == "files":
+        case["files_as"] = draw(st.sampled_from(
+            ["list", "list", "tuple", "iter", "generator", "paths"]))
     if select == "files" and draw(st.booleans()):
         case["subset"] = draw(st.one_of(
             st.just([]), st.lists(st.integers(0, n - 1), max_size=n),
             st.lists(st.integers(0, n - 1), max_size=n)))
-        case["files_as"] = draw(st.sampled_from(["list", "tuple"]))
+        case["files_as"] = draw(st.sampled_from(
+            ["list", "tuple", "iter", "generator", "paths"]))
         if method == "collect" and not case["subset"]:
             case["subset"] = [0]     # collect() needs at least one content
         if method == "collect":
@@ -673,6 +689,7 @@ def sampled_cases(draw, real=False):
         readable = [i for i in range(n) if i not in case["fail_read"]]
         if not readable or select == "bundles":
             case["fail_read"] = []
+    case["workers_via_default"] = draw(st.integers(0, 3)) == 0
     if real:
         case["pool"] = draw(st.sampled_from(["thread", "thread", "process"]))
         case["delays"] = draw(st.lists(st.sampled_from([0, 2, 5, 10, 20]),
@@ -690,10 +707,18 @@ def align_cases(draw):
         t, files = 0, []
         for _ in range(n):
             t += draw(st.sampled_from([0, 5, 20, 45, 90]))
-            d = draw(st.sampled_from([10, 30, 60, 200]))
+            d = draw(st.sampled_from([10, 30, 60, 200, 600]))
             files.append([t, d])
-            t += d if draw(st.booleans()) else d // 2
-        sets.append(files)
+            # next file: after this one, overlapping it, or nested inside it
+            t += draw(st.sampled_from([d, d, d // 2, 5, d + 30]))
+        # distinct (start, end) so that the time order is well defined
+        seen, uniq = set(), []
+        for t0, d in files:
+            while (t0, d) in seen or any(t0 == u[0] for u in uniq):
+                t0 += 1
+            seen.add((t0, d))
+            uniq.append([t0, d])
+        sets.append(uniq)
     total = len(sets[0]) + len(sets[1])
     return {"sets": sets, "workers": draw(st.integers(1, 4)),
             "perm": draw(st.permutations(list(range(total)))),
